@@ -435,7 +435,28 @@ def optimiser_run(spec):
 
     rec = _Recorder(spec["seed"] + 1000)
     old = reg.random
+    old_opt = reg.fmin_l_bfgs_b
     reg.random = rec
+    if spec.get("scripted"):
+        # a scripted optimiser meeting exactly the contract of C11_multistart_not_worse_than_centre (never ends
+        # worse than it started, stays inside the bounds) and otherwise arbitrary: it may stop early, report any
+        # warnflag (L-BFGS-B reports 1 / 2 for iteration limits and abnormal line-search terminations while
+        # still returning its best point), and improve a lot or not at all
+        sr = np.random.default_rng(spec["seed"] + 2000)
+
+        def scripted_opt(func, x0, approx_grad=False, bounds=None, **kw):
+            x0 = np.array(x0, dtype=float)
+            f0, g0 = func(x0)
+            best, fb, gb = x0, float(f0), g0
+            b = np.array(bounds, dtype=float)
+            for _ in range(int(sr.integers(0, 4))):
+                cand = b[:, 0] + (b[:, 1] - b[:, 0]) * sr.random(len(x0))
+                fc, gc = func(cand)
+                if np.isfinite(fc) and fc <= fb:
+                    best, fb, gb = cand, float(fc), gc
+            flag = int(sr.choice([0, 1, 2, 2]))
+            return best, fb, {"grad": gb, "task": "SCRIPTED", "funcalls": 1, "nit": 1, "warnflag": flag}
+        reg.fmin_l_bfgs_b = scripted_opt
     np.random.seed(spec["seed"])          # differential_evolution draws from the global generator
     try:
         with warnings.catch_warnings():
@@ -456,6 +477,7 @@ def optimiser_run(spec):
         out = {"status": "exception", "error": f"{type(e).__name__}: {e}"}
     finally:
         reg.random = old
+        reg.fmin_l_bfgs_b = old_opt
     return out
 
 
@@ -484,6 +506,86 @@ OPT_SPECS = [
     {"seed": 7, "n": 7, "d": 1, "kernel": ["SE"], "mean": "const", "cross_val": True, "optimizer": "diffev"},
     {"seed": 8, "n": 12, "d": 1, "kernel": ["SE"], "mean": "quadratic", "cross_val": False, "optimizer": "bfgs"},
 ]
+# scripted-optimiser runs of the real multistart selection (any optimiser behaviour the contract allows)
+SCRIPTED_SPECS = [
+    {"seed": 100 + k, "n": 6 + k % 4, "d": 1 + k % 2, "kernel": [["SE"], ["RQ"], ["sum", ["SE"], ["WN"]]][k % 3],
+     "mean": ["const", "linear"][k % 2], "cross_val": bool(k % 3 == 1), "optimizer": "bfgs", "scripted": True,
+     "n_starts": [None, 2, 5, 1][k % 4]} for k in range(24)]
+
+
+# ---------------------------------------------------------------- large data sets (log-determinant far outside the double range as a product)
+LARGE_PREAMBLE = """From Coq Require Import Reals List.
+From Interval Require Import Tactic.
+From IT Require Import RealModel.SelectionValue.
+Import ListNotations.
+Open Scope R_scope.
+"""
+
+
+def large_part(rep, r, tier):
+    """n = 60..400 points, small / no observation error or a large amplitude: prod(diag L) leaves the double
+    range although the score itself is moderate.  The value variants are compared (a) with each other, (b) with
+    ml_value of RealModel/SelectionValue.v on the implementation's own factor (coq-interval goal), (c) [oracle]
+    with an independent slogdet-based log-density."""
+    from scipy.linalg import solve_triangular
+    specs = [(120, 0.05, 1.0), (400, 0.05, 1.0), (120, 1e-3, 1.0), (150, 0.1, 1e3)]
+    if tier != "quick":
+        specs += [(250, 0.02, 1.0), (60, 0.0, 1.0), (300, 0.5, 1e4), (400, 0.01, 0.1)]
+    goals, meta = [], {}
+    for j, (n, noise, amp) in enumerate(specs):
+        x = np.sort(np.array([r.uniform(0, 10) for _ in range(n)]))
+        y = amp * (np.sin(x) + 0.1 * np.array([r.gauss(0, 1) for _ in range(n)]))
+        theta = np.array([0.1 * amp, math.log(amp), math.log(0.7 if noise > 0 else 0.12)])
+        m = {"n": n, "y_err": noise, "amplitude": amp, "hyperpars": theta.tolist(), "x": x.tolist(), "y": y.tolist()}
+        rep.count("large_data_set/n=%d" % n)
+        try:
+            with warnings.catch_warnings():
+                warnings.simplefilter("ignore")
+                kw = {"y_err": np.full(n, noise)} if noise > 0 else {}
+                gp = GP()(x, y, hyperpars=theta.copy(), kernel=MX.make_kernel(["SE"]), mean=MX.make_mean("const"), **kw)
+                ml = float(gp.marginal_likelihood(theta.copy()))
+                mlg = float(gp.marginal_likelihood_gradient(theta.copy())[0])
+                gp.set_hyperparameters(theta.copy())
+                L = np.array(gp.L, dtype=float)
+                mu = np.array(gp.mu, dtype=float).reshape(-1)
+                A = np.array(gp.K_xx, dtype=float)
+        except Exception as e:
+            rep.violation("C11/large-data/exception", f"marginal likelihood failed on {n} points: {e!r}", {"case": m}, True)
+            continue
+        sign, logdet = np.linalg.slogdet(A)
+        resid = y - mu
+        want = -0.5 * float(resid @ np.linalg.solve(A, resid)) - 0.5 * float(logdet)
+        tol = 1e-7 * max(1.0, abs(want))
+        if not math.isfinite(ml) or abs(ml - want) > tol:
+            rep.violation("C11/marginal_likelihood-value/large-data",
+                          f"marginal_likelihood = {ml!r} on {n} points (y_err {noise}, amplitude {amp}) but the log-density "
+                          f"of the data (without the 2 pi constant) is {want!r}", {"case": m}, True)
+            continue
+        if not math.isfinite(mlg) or abs(mlg - ml) > 1e-9 * max(1.0, abs(ml)):
+            rep.violation("C11/value-variants-differ/large-data",
+                          f"marginal_likelihood = {ml!r} but marginal_likelihood_gradient()[0] = {mlg!r} on {n} points",
+                          {"case": m}, True)
+            continue
+        v = solve_triangular(L, resid, lower=True)
+        quad = -sum((Fraction(float(t)) ** 2 for t in v), Fraction(0)) / 2
+        dl = "[" + "; ".join(C.cR(Fraction(float(t))) for t in np.diag(L)) + "]"
+        # v is the float solve; its own rounding moves the quadratic part by ~ cond * eps
+        gtol = Fraction(1e-7 * max(1.0, abs(ml))).limit_denominator(10 ** 12)
+        for tag, val in (("value", ml), ("value_and_gradient", mlg)):
+            gid = f"large{j}_{tag}"
+            goals.append((gid, f"Rabs (ml_value {C.cR(quad)} {dl} - {C.cR(Fraction(val))}) <= {C.cR(gtol)}",
+                          "unfold ml_value; cbn [sum_ln]; interval with (i_prec 60)"))
+            meta[gid] = dict(m, variant=tag, observed=val)
+    failed, broken = IV.check_goals(PROP, "large", goals, LARGE_PREAMBLE, "", 2, 8, 900)
+    rep.obligation(not failed and not broken, max(1, len(goals)))
+    rep.coverage["large_data_value_goals"] = len(goals)
+    for gid, log in failed[:3]:
+        rep.violation("C11/marginal_likelihood-value/large-data",
+                      f"{meta[gid]['variant']} variant returned {meta[gid]['observed']!r} which is not "
+                      "-1/2 v.v - sum ln L_ii for the implementation's own factor", {"case": meta[gid]}, True)
+    for b in broken[:1]:
+        rep.violation("C11/correspondence-run", "a large-data value goal file could not be processed",
+                      {"theorem_or_correspondence": "coq/gen/C11/large_*.v", "log": b[-800:]}, False)
 
 
 # ---------------------------------------------------------------- driver
@@ -563,7 +665,9 @@ def run(rep: C.Report, tier: str) -> int:
     (d / "ValueCases.v").write_text("\n".join(defs) + "\n")
 
     # ---- [R] optimiser runs
-    specs = OPT_SPECS[:6] if tier == "quick" else OPT_SPECS
+    specs = (OPT_SPECS[:6] + SCRIPTED_SPECS[:8]) if tier == "quick" else (OPT_SPECS + SCRIPTED_SPECS)
+    sseed = C.rng_for(PROP, "scripted-optimiser").randint(0, 10 ** 6)
+    specs = [dict(s, seed=s["seed"] + sseed) if s.get("scripted") else s for s in specs]
     opt_runs = [(s, optimiser_run(s)) for s in specs]
     ms_ok = [(s, o) for s, o in opt_runs if o["status"] == "ok"]
     ms_file = None
@@ -653,13 +757,15 @@ def run(rep: C.Report, tier: str) -> int:
                 rep.violation(key, what, {"case": describe(cases[k])}, True)
     rep.coverage["oracle_runs_on_agreeing_cases"] = n_or
 
+    large_part(rep, C.rng_for(PROP, "large"), tier)
+
     # ---- [R] optimiser runs
     rep.coverage["optimiser_runs_TEST_not_proof"] = [
         dict({k: v for k, v in s.items()}, status=o["status"],
              solution=o.get("solution"), solution_cost=o.get("solution_cost"), centre_cost=o.get("centre_cost"),
              error=o.get("error")) for s, o in opt_runs]
     for s, o in opt_runs:
-        rep.count("optimiser_run=" + s["optimizer"] + ("/loo" if s["cross_val"] else "/ml"))
+        rep.count("optimiser_run=" + ("scripted-" if s.get("scripted") else "") + s["optimizer"] + ("/loo" if s["cross_val"] else "/ml"))
         if o["status"] != "ok":
             rep.violation("C11/optimiser-exception", f"automatic hyper-parameter selection failed: {o['error']}",
                           {"case": {"optimiser_run": s}}, True)
